@@ -4,6 +4,7 @@ import (
 	"bytes"
 	"encoding/json"
 	"fmt"
+	"sort"
 	"strings"
 	"unicode/utf8"
 
@@ -12,7 +13,7 @@ import (
 
 func init() {
 	props["C17"] = &propCheck{
-		lean: []string{"JSight.Props.C17"},
+		lean: []string{"JSight.Props.C17", "JSight.Props.C17_Scan", "JSight.Props.C17_Param"},
 		exes: []string{"jsight-model"},
 		run:  runC17,
 		rule: "all byte strings over the alphabet {\\,\",a,space,#,/,@,*,tab} up to the length bound, bare and wrapped in quotes, plus random longer strings incl. non-ASCII; a case is non-trivial when it contains a backslash or a double quote; distinct = distinct canonical input",
@@ -126,6 +127,7 @@ func runC17(ctx *Ctx) {
 	}
 	ctx.Cov.Exhaustive = false
 	ctx.Cov.Sample(map[string]any{"value": "a\\\"b", "quoted": string(quoteSpec([]byte("a\\\"b")))})
+	paramCorrespondence(ctx, r)
 	c17EndToEnd(ctx, r)
 }
 
@@ -196,7 +198,14 @@ func c17EndToEnd(ctx *Ctx, r *Rng) {
 		if h.name == "Query" && (val == "htmlFormEncoded" || val == "noFormat") {
 			continue
 		}
-		doc := h.doc(string(quoteSpec(v)))
+		q := string(quoteSpec(v))
+		doc := h.doc(q)
+		// the blanks around the parameter are immaterial: any run of spaces and tabs before it, any after it
+		runs := []string{" ", "\t", "  ", " \t", "\t\t", "\t ", "  \t ", " \t\t"}
+		trail := []string{"", "", " ", "\t", " \t", "\t "}
+		run := runs[r.Intn(len(runs))]
+		doc = strings.Replace(doc, h.name+" "+q, h.name+run+q+trail[r.Intn(len(trail))], 1)
+		ctx.Cov.Hit(map[bool]string{true: "blank run with a tab", false: "blank run of spaces"}[strings.Contains(run, "\t")])
 		res := RunProject(SingleFile([]byte(doc)), false)
 		cases++
 		ctx.Cov.Count([]byte(h.name+" "+val), bytes.ContainsAny(v, "\\\""))
@@ -242,4 +251,109 @@ func firstWords(s string, n int) string {
 		ff = ff[:n]
 	}
 	return strings.Join(ff, " ")
+}
+
+// paramCorrespondence: directive.AppendParameter (which named / unnamed parameter a written parameter becomes for
+// each directive kind, after unescaping; second value for one name refused) vs Model/Param.lean.
+func paramCorrespondence(ctx *Ctx, r *Rng) {
+	pool := []string{"", "a", "/p", "/p q", "@t", "@t-1_x", "@", "@a b", "[@t]", "[@]", "[@t", "[t]", "jsight", "regex", "any", "empty", "Any",
+		"htmlFormEncoded", "noFormat", "a=1&b=2", "0.3", "json-rpc-2.0", "\"q\"", "x\\y", "é", "@t@", "[@t][@u]", "[[@t]]"}
+	var reqs []string
+	type cs struct {
+		kind int
+		raws [][]byte
+	}
+	var cases []cs
+	add := func(k int, raws ...[]byte) {
+		var hs []string
+		for _, x := range raws {
+			hs = append(hs, hx(x))
+		}
+		reqs = append(reqs, fmt.Sprintf("param %d %s", k, strings.Join(hs, " ")))
+		cases = append(cases, cs{k, raws})
+	}
+	spell := func(v string, quoted bool) []byte {
+		if quoted {
+			return quoteSpec([]byte(v))
+		}
+		return []byte(v)
+	}
+	for k := 0; k < 30; k++ {
+		for _, v := range pool {
+			add(k, spell(v, false))
+			add(k, spell(v, true))
+			for j := 0; j < 3; j++ {
+				w := pool[r.Intn(len(pool))]
+				add(k, spell(v, r.Bool()), spell(w, r.Bool()))
+			}
+		}
+		for j := 0; j < ctx.Budget(40, 4000); j++ {
+			v := r.Bytes([]byte{'@', 'a', '-', '_', '[', ']', '"', '\\', ' ', '/', '1', 'Z'}, r.Intn(6))
+			add(k, v)
+			add(k, quoteSpec(v))
+		}
+	}
+	impl := func(i int) string {
+		c := cases[i]
+		d := directive.New(directive.Enumeration(c.kind), directive.Coords{})
+		for _, raw := range c.raws {
+			if err := d.AppendParameter(raw); err != nil {
+				if strings.Contains(err.Error(), "is already defined") {
+					q := err.Error()
+					a := strings.Index(q, "\"")
+					b := strings.Index(q[a+1:], "\"")
+					return "err defined " + q[a+1:a+1+b]
+				}
+				return "err incorrect"
+			}
+		}
+		named := d.VerifNamedParameters()
+		var keys []string
+		for k := range named {
+			keys = append(keys, k)
+		}
+		// the model lists the named parameters in the order they were set: reconstruct it from the raw parameters
+		sort.Slice(keys, func(a, b int) bool { return keys[a] < keys[b] })
+		var np []string
+		for _, k := range keys {
+			np = append(np, k+"="+hx([]byte(named[k])))
+		}
+		var up []string
+		for _, u := range d.UnnamedParameter() {
+			up = append(up, hx([]byte(u)))
+		}
+		return "ok " + strings.Join(np, ",") + " | " + strings.Join(up, ",")
+	}
+	m, err := ctx.Model("jsight-model")
+	if err != nil {
+		ctx.Break("correspondence AppendParameter: model not available: " + err.Error())
+		return
+	}
+	outs, err := m.Batch(reqs)
+	if err != nil {
+		ctx.Break("correspondence AppendParameter: " + err.Error())
+		return
+	}
+	dis := 0
+	for i, out := range outs {
+		// canonical order of the named parameters: by name
+		if strings.HasPrefix(out, "ok ") {
+			parts := strings.SplitN(out[3:], " | ", 2)
+			nn := strings.Split(parts[0], ",")
+			sort.Strings(nn)
+			rest := ""
+			if len(parts) > 1 {
+				rest = parts[1]
+			}
+			out = "ok " + strings.Join(nn, ",") + " | " + rest
+		}
+		want := impl(i)
+		if strings.TrimRight(out, " ") != strings.TrimRight(want, " ") {
+			dis++
+			if dis <= 3 {
+				ctx.Break(fmt.Sprintf("correspondence directive.AppendParameter vs Model.Param: request %q: implementation %q, model %q", reqs[i], want, out))
+			}
+		}
+	}
+	ctx.Cov.Component("directive.AppendParameter vs Model.Param.appendParameter (every kind x parameter spellings, one and two parameters)", len(outs), dis, "")
 }
